@@ -401,3 +401,29 @@ def boundary_head_read(rng, w, num, den):
     cig = [list(x) for x in reversed(cig)]
     # find_polyt_head reads `to` clipped bases and `from + 1` aligned bases; find_polya_tail reads `to + 1` and `from`
     return seq, cig, max(0, frm - 1), to + 1, chk, tag
+
+
+def fake_tail_read(rng, three_prime=True):
+    """body exon(s), an N gap, a short terminal exon that is (mostly) aligned tail — optionally with a few non-tail bases in
+    front — and optionally a soft-clipped continuation of the tail (audit2-D G-C16-1: `201M299N31M30S`).  With the clip
+    both the internal and the external finder report a position; mirror image for the 5' end."""
+    nb = rng.randint(1, 2)
+    body, cig = "", []
+    for i in range(nb):
+        if i:
+            cig.append([N, rng.randint(80, 900)])
+        n = rng.randint(60, 250)
+        cig.append([M, n])
+        body += "".join(rng.choice("CGT" if three_prime else "CGA") for _ in range(n))
+    pre = rng.choice([0, 0, 0, 1, 3, 8])              # non-tail bases at the inner end of the fake exon
+    fake = rng.choice([17, 20, 31, 31, 45, 60])
+    clip = rng.choice([0, 5, 20, 30, 30, 40])
+    purity = rng.choice([1.0, 1.0, 0.95])
+    gap = rng.randint(60, 1200)
+    if three_prime:
+        cig += [[N, gap], [M, pre + fake]] + ([[S, clip]] if clip else [])
+        seq = body + "".join(rng.choice("CGT") for _ in range(pre)) + rich(rng, "A", fake, purity) + "A" * clip
+        return seq, cig
+    cig = ([[S, clip]] if clip else []) + [[M, fake + pre], [N, gap]] + cig
+    seq = "T" * clip + rich(rng, "T", fake, purity) + "".join(rng.choice("CGA") for _ in range(pre)) + body
+    return seq, cig
